@@ -400,7 +400,9 @@ fn headers_to_canonicalized_string(headers: &hyper::HeaderMap) -> String {
 
     for (key, value) in headers.iter() {
         let key = key.to_string();
-        let value = value.to_str().unwrap().to_string();
+        // HeaderValue::to_str fails for bytes outside visible ASCII (a client may send them),
+        // never panic on the request path: take the bytes as (lossy) UTF-8 text instead
+        let value = String::from_utf8_lossy(value.as_bytes()).to_string();
         let key_lower_case = key.to_lowercase();
         map.insert(key_lower_case, (key, value));
     }
